@@ -1154,6 +1154,19 @@ class Ev:
                     raise Unsupported("for loop over a value that is not a modelled sequence at line %s" % x.get("ln"))
                 it = Seq(it, el if callable(el) else (lambda idx, el=el: el))
             name = "i%d" % len(self.loops)
+            if getattr(it, "elem_guard", None) is not None:
+                # a loop over `seq.filter_map(..)`: the loop over `seq` with the body under "this element was kept"
+                self.outer_locals.append(set(env.keys()))
+                self.bind(x["pat"], it.fn(Poly.atom(name)), env)
+                self.loops.append((name, vkey(it.base_src)))
+                self.guards.append(it.elem_guard(Poly.atom(name)))
+                try:
+                    self.exec_stmt(x["body"], env, depth)
+                finally:
+                    self.guards.pop()
+                    self.loops.pop()
+                    self.outer_locals.pop()
+                return
             # `let mut v = Vec::new(); for x in seq { .. v.push(f(x)) .. }` is `seq.map(f).collect()`: element idx is what one execution of the body pushes
             push_ids = []
             for e_ in hir.walk(x["body"]):
@@ -1164,6 +1177,21 @@ class Ev:
                         if (isinstance(cur, Tup) and not cur.items) or (isinstance(cur, Sym) and cur.tag[:2] == ("call", "std::vec::Vec::<T>::with_capacity")):
                             push_ids.append(t_["id"])
             env0 = fork_env(env) if push_ids else None
+            # `for _ in a..b { x = f(x) }` applies f a fixed number of times: the `repeat` form of a counted while loop / a range fold. Recognised when the body
+            # is a straight line of assignments to outer scalars; each runs on a placeholder for "the value at the start of this round"
+            reps = {}
+            ksrc = vkey(it.src)
+            bst = x["body"]["stmts"] + ([{"k": "semi", "e": x["body"]["e"]}] if "e" in x["body"] else []) if x["body"].get("k") == "block" else []
+            if not push_ids and not self.loops and not it.enumerated and isinstance(ksrc, tuple) and ksrc[:2] == ("sym", "range") and bst and \
+                    all(s_["k"] in ("expr", "semi") and s_["e"].get("k") in ("assign", "assignop") and strip_refs(s_["e"]["l"]).get("k") == "path" and
+                        strip_refs(s_["e"]["l"]).get("res") == "local" and strip_refs(s_["e"]["l"])["id"] in env and
+                        isinstance(env[strip_refs(s_["e"]["l"])["id"]], Sym) for s_ in bst):
+                for s_ in bst:
+                    vid = strip_refs(s_["e"]["l"])["id"]
+                    if vid not in reps:
+                        ph = Sym("loopvar", len(reps))
+                        reps[vid] = (env[vid], ph)
+                        env[vid] = ph
             self.outer_locals.append(set(env.keys()))
             self.bind(x["pat"], it.fn(Poly.atom(name)), env)
             self.loops.append((name, vkey(it.src)))
@@ -1172,6 +1200,21 @@ class Ev:
             finally:
                 self.loops.pop()
                 self.outer_locals.pop()
+            for vid, (init, ph) in reps.items():
+                v = env[vid]
+                tag = v.tag if isinstance(v, Sym) else None
+                others = [p2 for v2, (_, p2) in reps.items() if v2 != vid]
+                if isinstance(tag, tuple) and tag[:1] == ("carried",) and tag[1] == vkey(ph) and not tag[3] and len(tag[4]) == 1 and \
+                        not key_mentions(tag[2], name) and not any(key_mentions(tag[2], vkey(o)) for o in others):
+                    count = poly_from_key(ksrc[3]) - poly_from_key(ksrc[2])
+                    step = key_subst(tag[2], vkey(ph), vkey(Sym("acc")))
+                    env[vid] = Sym("repeat", count.key(), vkey(init), step)
+                elif isinstance(v, Sym):
+                    env[vid] = Sym(*key_subst(v.tag, vkey(ph), vkey(init)))          # not the counted idiom: as before, an opaque carried value of the initial value
+                elif vkey(v) == vkey(ph):
+                    env[vid] = init
+                else:
+                    raise Unsupported("loop-carried value of an unexpected kind in a range loop at line %s" % x.get("ln"))
             for rid in push_ids:
                 def pushed(idx, rid=rid, it=it, env0=env0, x=x, depth=depth, lvl=len(self.loops)):
                     env3 = fork_env(env0)
@@ -1347,8 +1390,32 @@ class Ev:
             env[xid] = Sym("repeat", count.key(), vkey(env[xid]), step)
             env[cid] = final_c
             return
+        # each variable's value is the fixed iteration of the variables it depends on (through its own step and through the loop test): a temporary that is
+        # merely recomputed from the others each round (`start = candidate + 1`) does not enter the recurrence of the others
+        def mentions(k, j):
+            return key_mentions(k, ("sym", "loopvar", j)) or key_mentions(k, ("loopvar", j))
+        n_ = len(assigned)
+        ck_ = vkey(cond)
+        base = {j for j in range(n_) if mentions(ck_, j)}
         for k_, vid in enumerate(assigned):
-            tag = ("iterate", k_, inits, vkey(cond), steps)
+            dep = set(base) | {k_}
+            grew = True
+            while grew:
+                grew = False
+                for j in list(dep):
+                    for j2 in range(n_):
+                        if j2 not in dep and mentions(steps[j], j2):
+                            dep.add(j2)
+                            grew = True
+            order = sorted(dep)
+
+            def renum(k):
+                for pos, j in enumerate(order):
+                    k = key_subst(key_subst(k, ("sym", "loopvar", j), ("sym", "loopvar~", pos)), ("loopvar", j), ("loopvar~", pos))
+                for pos in range(len(order)):
+                    k = key_subst(key_subst(k, ("sym", "loopvar~", pos), ("sym", "loopvar", pos)), ("loopvar~", pos), ("loopvar", pos))
+                return k
+            tag = ("iterate", order.index(k_), tuple(inits[j] for j in order), renum(ck_), tuple(renum(steps[j]) for j in order))
             env[vid] = Poly.atom(tag) if isinstance(env[vid], Poly) else Sym(*tag)
 
     def arith(self, op, l, r, e, depth):
@@ -1654,6 +1721,12 @@ class Ev:
         for suffix, h in self.hooks.items():
             if not suffix.startswith("@") and (d.endswith(suffix) or f.get("def", "").endswith(suffix)):
                 return h(self, args, e)
+        if dk.startswith("Ctor") and d.startswith("std::borrow::Cow::") and len(args) == 1:
+            return args[0]            # Cow::Borrowed(x) / Cow::Owned(x) deref to x
+        if dk.startswith("Ctor") and len(args) == 1 and isinstance(args[0], Alt) and d.rsplit("::", 1)[-1] in ("Ok", "Err", "Some") and e["args"][0].get("ty") != "bool":
+            # `Ok(if c { a } else { b })` (the alternatives may come from an inlined helper) is `if c { Ok(a) } else { Ok(b) }`
+            nm = d.rsplit("::", 1)[-1]
+            return Alt([(gs[0] if len(gs) == 1 else ("all", gs), xv if isinstance(xv, EarlyRet) else Sym("ctor", nm, xv)) for gs, xv in flat_alts(args[0])])
         if dk.startswith("Ctor"):
             return Sym("ctor", d.rsplit("::", 1)[-1], *args)
         if d.startswith("core::panicking::") or d.startswith("std::rt::begin_panic"):
@@ -1832,6 +1905,37 @@ class Ev:
                     return Sym("repeat", count.key(), vkey(args[0]), vkey(body))      # same canonical form as a counted while loop
                 tag = ("fold", src, vkey(args[0]), vkey(body))
                 return Poly.atom(tag) if isinstance(args[0], Poly) else Sym(*tag)
+            if m == "filter_map" and len(args) == 1 and isinstance(args[0], Clo):
+                # `seq.filter_map(|x| opt(x).map(|v| item(x, v)))`: the items of those elements for which opt(x) is Some — consumed by a `for` loop as
+                # the loop over `seq` itself with the body under the guard `opt(x) is Some` (the form `for x in seq { if let Some(v) = opt(x) { .. } }`)
+                f = args[0]
+                def kept(idx, f=f, recv=recv, depth=depth):
+                    env2 = dict(f.env)
+                    self.bind(f.params[0], recv.fn(idx), env2)
+                    b_ = f.body
+                    while b_.get("k") == "block" and not b_["stmts"] and "e" in b_:
+                        b_ = b_["e"]
+                    if b_.get("k") == "mcall" and b_["m"] == "map" and len(b_["args"]) == 1 and b_["args"][0].get("k") == "closure" and \
+                            (b_["recv"].get("ty") or "").replace("&", "").startswith("std::option::Option<"):
+                        o_ = self.eval(b_["recv"], env2, depth)
+                        if isinstance(o_, (Sym, Seq)) and not (isinstance(o_, Sym) and o_.tag[:1] == ("ctor",)):
+                            env3 = dict(env2)
+                            self.bind(b_["args"][0]["params"][0], Sym("payload", vkey(o_), 0), env3)
+                            return ("arm", ("Some", "_"), vkey(o_)), self.collapse(self.eval(b_["args"][0]["body"], env3, depth))
+                    r_ = self.collapse(self.eval(f.body, env2, depth))
+                    if isinstance(r_, Alt) and len(r_.alts) == 2:
+                        (g1, v1), (g2, v2) = r_.alts
+                        if g2 == neg_guard(g1) and isinstance(v1, Sym) and v1.tag[:2] == ("ctor", "Some") and isinstance(v2, Sym) and v2.tag[:2] == ("ctor", "None"):
+                            return g1, v1.tag[2]
+                        if g2 == neg_guard(g1) and isinstance(v2, Sym) and v2.tag[:2] == ("ctor", "Some") and isinstance(v1, Sym) and v1.tag[:2] == ("ctor", "None"):
+                            return g2, v2.tag[2]
+                    return None
+                k0 = kept(Poly.atom("i"))
+                if k0 is not None:
+                    nsrc = Sym("filter_map", vkey(recv.src), k0[0], vkey(k0[1]))
+                    sq = Seq(nsrc, lambda idx, kept=kept: kept(idx)[1])
+                    sq.base_src, sq.elem_guard = recv.src, (lambda idx, kept=kept: kept(idx)[0])
+                    return sq
             if m == "eq" and len(args) == 1 and isinstance(args[0], (Seq, Coll)) and not recv.enumerated:
                 # Iterator::eq: the same number of items and pairwise equal in order — `a.len() == b.len() && a.iter().zip(b.iter()).all(|(x, y)| x == y)`
                 o = args[0].seq if isinstance(args[0], Coll) else args[0]
@@ -1947,6 +2051,8 @@ class Ev:
                 return recv.pow_int(int(args[0].const_value()))
             if m in ("abs", "unsigned_abs") and not args:
                 return func_atom("abs", recv)
+            if m == "recip" and not args and recv.order == 0:
+                return recv.inv()            # f64::recip is `1.0 / self`
             if m in ("try_into",) and not args and recv.order == 0:
                 return Sym("ctor", "Ok", recv)
             if m == "div_euclid" and len(args) == 1 and isinstance(args[0], Poly) and recv.order == 0:
